@@ -114,6 +114,11 @@ def call(H, op, g, rng=None):
         p = (side(t), side(h))
         return p if rng.random() < 0.6 else list(p)
 
+    def odd(d, last):
+        if op["b4"] and last:
+            return None
+        return list(d.items()) if op["b2"] else d
+
     def ebunch(fmt, items):
         out = []
         for it in items:
@@ -123,9 +128,9 @@ def call(H, op, g, rng=None):
             elif fmt == 2:
                 out.append((m, E(it["id"])))
             elif fmt == 3:
-                out.append((m, A(it["a"], "e")))
+                out.append((m, odd(A(it["a"], "e"), it is items[-1])))
             elif fmt == 4:
-                out.append((m, E(it["id"]), A(it["a"], "e")))
+                out.append((m, E(it["id"]), odd(A(it["a"], "e"), it is items[-1])))
         if fmt == 5:
             # a caller may well reuse one set object for several sides
             shared = {}
@@ -133,11 +138,15 @@ def call(H, op, g, rng=None):
             def side5(m):
                 key = frozenset(m)
                 if rng.random() < 0.5 and -1 not in m:
-                    return shared.setdefault(key, {N(x) for x in m})
+                    if key not in shared:
+                        shared[key] = {N(x) for x in m}
+                        hg._HANDED.append(shared[key])
+                    return shared[key]
                 return side(m)
             return {E(it["id"]): (side5(it["m"]), side5(it["h"])) for it in items}
         return out if rng.random() < 0.7 else iter(out)
 
+    hg.begin_call()
     with warnings.catch_warnings(record=True) as wlist:
         warnings.simplefilter("always")
         try:
@@ -203,6 +212,7 @@ def call(H, op, g, rng=None):
             if isinstance(ex, (KeyboardInterrupt, SystemExit)):
                 raise
             res = classify(ex)
+    hg.end_call()
     return res, len(wlist), newg
 
 
@@ -258,7 +268,8 @@ def rand_op(rng, j, nn=6):
                     seen.add(it["id"])
                     u.append(it)
             its = u
-        return mkop(name, fmt=fmt, items=its, a=rand_attr(rng))
+        odd = fmt in (3, 4) and its and rng.random() < 0.08
+        return mkop(name, fmt=fmt, items=its, a=rand_attr(rng), b2=bool(odd))
     if name == "add_node_to_edge":
         return mkop(name, e=-1 if rng.random() < 0.03 else anyedge(), n=-1 if rng.random() < 0.03 else anynode(),
                     s1=rng.choice(["in", "out", "in", "out", "both"]))
